@@ -221,7 +221,25 @@ func sweepDoc(sb *strings.Builder, d orda.Document, depth int) {
 			}
 			if len(vv) > 0 {
 				cs, err := d.GetManyFromArray(0, len(vv))
-				fmt.Fprintf(sb, " many=%d/%v", len(cs), err != nil)
+				fmt.Fprintf(sb, " many=%d/%v[", len(cs), err != nil)
+				for _, cd := range cs {
+					if cd == nil {
+						sb.WriteString("<nil>,")
+						continue
+					}
+					fmt.Fprintf(sb, "%s,", Canon(cd.GetValue()))
+				}
+				sb.WriteString("]")
+				if len(vv) > 1 { // a proper sub-range
+					cs, err := d.GetManyFromArray(1, len(vv)-1)
+					fmt.Fprintf(sb, " tail=%d/%v[", len(cs), err != nil)
+					for _, cd := range cs {
+						if cd != nil {
+							fmt.Fprintf(sb, "%s,", Canon(cd.GetValue()))
+						}
+					}
+					sb.WriteString("]")
+				}
 			}
 		}
 	}
